@@ -10,7 +10,7 @@ import (
 )
 
 func init() {
-	Register(&Scenario{Prop: "C06", Name: "kv-lww", Run: scenC06, Weight: 1})
+	Register(&Scenario{Prop: "C06", Name: "kv-lww", Run: scenC06, SoftParks: true, Weight: 1})
 }
 
 var c06Keys = []string{"a", "b", "ключ", "k k", "z/1"}
